@@ -762,7 +762,6 @@ def call_lua_sandbox(
 
     # Call the Lua function in the given module
     stack_len = len(ctx.expand_stack)
-    env_stack_len = len(ctx.lua_env_stack)
     ctx.expand_stack.append("Lua:{}:{}()".format(modname, modfn))
     if TYPE_CHECKING:
         assert ctx.lua_invoke is not None
@@ -795,7 +794,7 @@ def call_lua_sandbox(
             ctx.expand_stack.pop()
     # print("Lua call {} returned: ok={!r} text={!r}"
     #       .format(invoke_args, ok, text))
-    while len(ctx.lua_env_stack) > env_stack_len:
+    if len(ctx.lua_env_stack) > 0:
         ctx.lua_env_stack.pop()
     if len(ctx.lua_frame_stack) > 0:
         ctx.lua_frame_stack.pop()
